@@ -15,6 +15,7 @@ fn main() {
     let f: fn(&serde_json::Value) -> serde_json::Value = match engine.as_str() {
         "retryopts" => engines::retryopts::run,
         "exit" => engines::exit::run,
+        "twins" => engines::twins::run,
         "realclock" => engines::realclock::run,
         "filter" => engines::filter::run,
         "attempt" => engines::attempt::run,
